@@ -1,7 +1,13 @@
 """C12 - maps are insertion-ordered dictionaries."""
+import glob
+import json
+import os
 import random
+import shutil
+import subprocess
 
 from . import common, machine
+from .common import HarnessError
 
 replay_one = machine.replay_one
 NOPS = 23
@@ -31,3 +37,107 @@ def run(chk):
     chk.exhaustive = False
     machine.replay_family(chk, cases)
     chk.assumptions += ["exhaustive up to history length %d, sampled beyond (VERIF_SEED)" % exh]
+    direction_b(chk)
+
+
+KEYS = ["a", "b", "c", "d", "e"]
+
+
+def gen_prog(rnd, nops):
+    """A random program that works on maps through several names, loops over them while changing
+    them (nested loops, break), passes them to functions and copies them with array repetition."""
+    out = ["m := {a:1 b:2}", "n := m", "o:{}num", "arr := [m o] * 2", "func touch mm:{}num k:string", "    mm[k] = 7",
+           "    del mm \"a\"", "end", "func build:{}num x:num", "    r := {z:x}", "    r.y = x", "    return r", "end"]
+    names = ["m", "n", "o", "arr[0]", "arr[3]"]
+
+    def op(ind, depth):
+        v = rnd.choice(names)
+        k = rnd.choice(KEYS)
+        r = rnd.random()
+        if r < 0.30:
+            return [ind + "%s[\"%s\"] = %d" % (v, k, rnd.randrange(100))]
+        if r < 0.50:
+            return [ind + "del %s \"%s\"" % (v, k)]
+        if r < 0.58:
+            return [ind + "touch %s \"%s\"" % (v, k)]
+        if r < 0.64:
+            return [ind + "o = (build %d)" % rnd.randrange(9)]
+        if r < 0.70:
+            return [ind + "print %s (len %s) (has %s \"%s\")" % (v, v, v, k)]
+        if depth < 2:
+            lv = "k%d" % depth
+            body = []
+            for _ in range(rnd.randrange(1, 4)):
+                body += op(ind + "    ", depth + 1)
+            extra = rnd.choice(["del %s %s" % (v, lv), "%s[%s] = 5" % (v, lv), "print %s" % lv,
+                                "if %s == \"b\"\n%s        break\n%s    end" % (lv, ind, ind)])
+            return [ind + "for %s := range %s" % (lv, v), ind + "    print %s" % lv] + body + [ind + "    " + extra, ind + "end"]
+        return [ind + "%s.%s = %d" % (v, k, rnd.randrange(100))] if "[" not in v else [ind + "del %s \"%s\"" % (v, k)]
+
+    for _ in range(nops):
+        out += op("", 0)
+    out.append("print m n o arr")
+    return "\n".join(out) + "\n"
+
+
+def direction_b(chk):
+    """Hook-recorded map events of random programs and of repository programs, validated by TLC against EvyMapTrace."""
+    rnd = random.Random(common.seed() + 17)
+    res = common.run_tlc("EvyMapMC", "EvyMapMC.cfg", defines={"MAXOPS": 6 if chk.tier == "quick" else 8}, timeout=1200)
+    chk.add_tlc(res, "EvyMapMC")
+    common.build_harness()
+    d = common.scratch("maprec")
+    recs = []
+    nprog = 60 if chk.tier == "quick" else 600
+    for i in range(nprog):
+        recs.append({"id": "rnd%d" % i, "src": gen_prog(rnd, rnd.randrange(4, 14)), "maxEvents": 400})
+    files = sorted(glob.glob(os.path.join(common.REPO, "**", "*.evy"), recursive=True))
+    nfile = 0
+    for f in files:
+        try:
+            text = open(f, encoding="utf-8").read()
+        except Exception:
+            continue
+        if "{" in text and (":=" in text):
+            recs.append({"id": os.path.relpath(f, common.REPO), "src": text, "maxEvents": 300})
+            nfile += 1
+    inp, outp = os.path.join(d, "recs.ndjson"), os.path.join(d, "trace.ndjson")
+    with open(inp, "w") as fh:
+        for r in recs:
+            fh.write(json.dumps(r) + "\n")
+    r = subprocess.run([common.HARNESS, "record-map", "-in", inp, "-out", outp], capture_output=True, text=True, timeout=900)
+    if r.returncode != 0:
+        raise HarnessError("record-map failed: " + r.stderr[-2000:])
+    lines = [l for l in open(outp).read().splitlines() if l.strip()]
+    shutil.rmtree(d, ignore_errors=True)
+    # chunks of whole traces
+    chunks, cur = [], []
+    for l in lines:
+        if '"ev":"Reset"' in l and len(cur) > 15000:
+            chunks.append(cur)
+            cur = []
+        cur.append(l)
+    if cur:
+        chunks.append(cur)
+    ntr = nev = 0
+    for i, ch in enumerate(chunks):
+        data = ("\n".join(ch) + "\n").encode()
+        res = common.run_tlc("EvyMapTrace", "EvyMapTrace.cfg", workers=1, timeout=900, extra_files=[(data, "trace.ndjson")],
+                             allow_violation=True, name="maptrace")
+        chk.add_tlc(res, "EvyMapTrace-%d" % i)
+        n = sum(1 for l in ch if '"ev":"Reset"' in l)
+        if res.violation or res.depth != len(ch) + 1:
+            j = max(res.depth - 1, 0)
+            start = max([k for k in range(min(j + 1, len(ch))) if '"ev":"Reset"' in ch[k]] or [0])
+            chk.mismatch("maptrace", "map events of the real evaluator are not a behaviour of EvyMap: line %d rejected: %s (%s)"
+                         % (j + 1, ch[j] if j < len(ch) else "<end>", (res.violation or "no action matches").splitlines()[0][:160]),
+                         {"trace_head": ch[start], "context": ch[max(0, j - 8): j + 1]})
+        else:
+            ntr += n
+            nev += len(ch)
+    chk.traces += ntr
+    chk.evaluations += ntr
+    chk.extra["map_traces_validated"] = ntr
+    chk.extra["map_events_validated"] = nev
+    chk.extra["repository_programs_with_maps"] = nfile
+    chk.sample({"map_trace_head": lines[:6]})
